@@ -18,6 +18,7 @@ import numpy as np
 import sympy as sp
 
 from . import field
+from . import paths
 from .harness import Ob
 from .loader import load, rdomain, real_constants
 from .sym import RSym, Sym, unwrap, record_divisors, Concretization
@@ -122,53 +123,240 @@ def guarded_claim(fn):
 @guarded_claim
 def eq_spec(ctx, name, symbols, code, spec, domain=None, kind="a", cos_nonneg=(),
             cell_names=None, crosscheck=True, tol=1e-9, py=None, extra_relations=(),
-            rdomain_kw=None, derived=None, const_box=None):
+            rdomain_kw=None, derived=None, const_box=None, history=True):
     """Obligations `name[cell]`: code(v) == spec(v) cell by cell, for all values of
     `symbols` in `domain` (boxes are used only by the numeric refuter / cross-check;
-    the proof itself is an identity in the fraction field)."""
+    the proof itself is an identity in the fraction field).  Value-dependent branches of
+    the code are explored path by path (pvx.paths); `name.history`: the result of a call
+    does not depend on an earlier call."""
     py = py or load()
     dom = full_domain(py, domain)
     t0 = time.time()
-    try:
+    state = paths.Captured(code, py)
+    consts = const_point(py)
+
+    def ncode(v):
+        state.restore()
+        return code(v)
+
+    def body(prev=None):
+        state.restore()
         with rdomain(py, **(rdomain_kw or {})), record_divisors() as divs:
+            if prev is not None:
+                code({s.name: RSym(prev[s]) for s in symbols})
             res = code({s.name: RSym(s) for s in symbols})
-            got = flat(res)
-    except (TypeError, ValueError, Concretization) as exc:
-        if not freshness_failure(ctx, name, symbols, code, dom, exc):
-            raise
-        return None
-    freshness(ctx, name, symbols, code, dom)
-    divisor_obligations(ctx, name, divs, dom, code, symbols, py, derived=derived, const_box=const_box)
+            return flat(res), list(divs)
+
     want = flat(spec({s.name: s for s in symbols}))
-    if len(got) != len(want):
-        ctx.add(Ob(name + ".shape", "c", "failed", "shape", time.time() - t0,
-                   "code returned %d cells, spec has %d" % (len(got), len(want)),
-                   cex=dict(code_cells=len(got), spec_cells=len(want)), native=dict(reproduced=True)))
-        return None
-    ctx.paths += 1
+    fwant = lambdify_at_constants(py, want, symbols)
+
+    def spec_float(v):
+        with mpmath.workdps(30):
+            return [float(x) for x in fwant(*[mpmath.mpf(v[s.name]) for s in symbols])]
+
+    def compare(g, w, _i=None):
+        sc = max([abs(x) for x in w] + [1e-300])
+        bad = [(i, g[i], w[i]) for i in range(min(len(g), len(w))) if not _close(g[i], w[i], tol, sc)]
+        if _i is not None:
+            bad = [b_ for b_ in bad if b_[0] == _i]
+        return bad
 
     def native_fn(point, _i=None):
         v = {s.name: point.get(s.name, 0.0) for s in symbols}
+        prev = {s.name: point[s.name + paths.PRIME] for s in symbols if s.name + paths.PRIME in point}
+        state.restore()
+        if prev and len(prev) == len(symbols):
+            code(prev)
         g = flat_float(code(v))
-        f = lambdify_at_constants(py, want, symbols)
-        with mpmath.workdps(30):
-            w = [float(x) for x in f(*[mpmath.mpf(v[s.name]) for s in symbols])]
-        sc = max([abs(x) for x in w] + [1e-300])
-        bad = [(i, g[i], w[i]) for i in range(len(g)) if not _close(g[i], w[i], tol, sc)]
-        if _i is not None:
-            bad = [b for b in bad if b[0] == _i]
-        return dict(reproduced=bool(bad), inputs=v,
-                    real_code=[b[1] for b in bad][:6], contract_demands=[b[2] for b in bad][:6],
-                    cells=[b[0] for b in bad][:6])
+        state.restore()
+        bad = compare(g, spec_float(v), _i)
+        out = dict(reproduced=bool(bad), inputs=v, real_code=[b_[1] for b_ in bad][:6], contract_demands=[b_[2] for b_ in bad][:6],
+                   cells=[b_[0] for b_ in bad][:6])
+        if prev:
+            out["previous_call_inputs"] = prev
+        return out
 
-    for i, (g, w) in enumerate(zip(got, want)):
-        cn = cell_names[i] if cell_names else str(i)
-        v = field.check_zero(g - w, domain=dom, seed=ctx.seed + i, cos_nonneg=cos_nonneg,
-                             extra_relations=extra_relations)
-        ctx.from_verdict("%s[%s]" % (name, cn), kind, v, (lambda p, _i=i: native_fn(p, _i)))
-    if crosscheck:
-        cross_check(ctx, name, symbols, code, got, dom, py=py, tol=tol)
-    return got
+    try:
+        runs = paths.explore_claim(body)
+    except (TypeError, ValueError, Concretization) as exc:
+        state.restore()
+        if freshness_failure(ctx, name, symbols, code, dom, exc):
+            state.restore()
+            return None
+        found = _native_falsify(ctx, symbols, dom, state, code, lambda v: compare(flat_float(code(v)), spec_float(v)))
+        state.restore()
+        if found is not None:
+            ctx.add(Ob(name + ".native_fallback", kind, "failed", "bounded native falsification (call sequences; symbolic execution impossible)", time.time() - t0,
+                       "the engine cannot execute this function symbolically (%s); natively the contract fails" % repr(exc)[:160],
+                       cex=found, native=dict(reproduced=True, **found)))
+        raise
+    state.restore()
+    freshness(ctx, name, symbols, code, dom)
+    state.restore()
+    multi = len(runs) > 1
+    main_got = None
+    for k, (conds, (got, divs)) in enumerate(runs):
+        tag = ".path%d" % k if multi else ""
+        pts = None
+        if conds:
+            wit = paths.witnesses(conds, symbols, dom, consts, ctx.seed + k, field.DEFAULT_BOX)
+            if not wit:
+                ctx.notes.append(dict(claim=name, path=k, skipped="no input found on which the recorded branch outcomes reproduce natively",
+                                      conditions=paths.show_conds(conds)))
+                continue
+            pts = [{s: w_[s.name] for s in symbols} for w_ in wit]
+        else:
+            divisor_obligations(ctx, name + tag, divs, dom, ncode, symbols, py, derived=derived, const_box=const_box)
+        if main_got is None:
+            main_got = got
+        if len(got) != len(want):
+            ctx.add(Ob(name + tag + ".shape", "c", "failed", "shape", time.time() - t0,
+                       "code returned %d cells, spec has %d%s" % (len(got), len(want), (" | path: %s" % paths.show_conds(conds)) if conds else ""),
+                       cex=dict(code_cells=len(got), spec_cells=len(want)), native=dict(reproduced=True)))
+            continue
+        ctx.paths += 1
+        for i, (g, w_) in enumerate(zip(got, want)):
+            cn = cell_names[i] if cell_names else str(i)
+            v = field.check_zero(g - w_, domain=dom, seed=ctx.seed + i, cos_nonneg=cos_nonneg,
+                                 extra_relations=extra_relations, points=pts)
+            if conds and v.status != "proved":
+                v.detail = (v.detail + " | on the path " + "; ".join(paths.show_conds(conds)))[:900]
+            ctx.from_verdict("%s[%s]%s" % (name, cn, tag), kind, v, (lambda p, _i=i: native_fn(p, _i)))
+        if crosscheck and not conds:
+            cross_check(ctx, name, symbols, ncode, got, dom, py=py, tol=tol)
+    if main_got is None:
+        ctx.add(Ob(name + ".paths", "guard", "error", "path-enumeration", time.time() - t0, "no executable path of the claim had a witness input"))
+        return None
+    if history:
+        _history(ctx, name, symbols, None, body, state, want, main_got, dom, consts, kind, cos_nonneg, extra_relations,
+                 lambda p: native_fn(p))
+    state.restore()
+    return main_got
+
+
+def _native_falsify(ctx, symbols, dom, state, code, failing, eps=None, n=60):
+    """Bounded stand-in used only when the engine cannot execute a function symbolically: single calls and two-call
+    sequences (same input, one coordinate changed, neighbours at several scales) on the real code."""
+    import random
+    rng = random.Random(ctx.seed + 99)
+    prim = {s.name: s.name + paths.PRIME for s in symbols}
+    tried = 0
+    for p in paths.candidates(symbols, dom, rng, field.DEFAULT_BOX, eps=eps, primed=prim, n_base=3):
+        tried += 1
+        if tried > n * 10:
+            break
+        v = {s.name: p[s.name] for s in symbols}
+        prev = {s.name: p[prim[s.name]] for s in symbols}
+        for seq in ((v,), (prev, v)):
+            try:
+                state.restore()
+                for q in seq[:-1]:
+                    code(q)
+                bad = failing(seq[-1])
+            except Exception:
+                continue
+            if bad:
+                return dict(call_sequence=list(seq), mismatches=[(b_[0], b_[1], b_[2]) for b_ in bad][:4], sequences_tried=tried)
+    return None
+
+
+def _history(ctx, name, symbols, eps, body, state, want, main_got, dom, consts, kind, cos_nonneg, extra_relations, native_fn,
+             reduce_=None):
+    """`name.history`: after a call on other (primed) inputs, the same world -- same captured objects, same module
+    state -- returns a result that still satisfies the contract, on every path of the two-call sequence."""
+    t0 = time.time()
+    base = list(symbols) + ([eps] if eps is not None else [])
+    prev = paths.primed_symbols(base)
+    allsyms = base + [prev[s] for s in base]
+    dom2 = dict(dom)
+    for s in base:
+        if s in dom:
+            dom2[prev[s]] = dom[s]
+    try:
+        hruns = paths.explore_claim(lambda: body(prev))
+    except Exception as exc:
+        state.restore()
+        ctx.ob(name + ".history", "f", None, "symbolic-execution(two calls)", time.time() - t0,
+               "the second of two calls could not be executed symbolically (%s): the function keeps state the engine cannot follow" % repr(exc)[:200])
+        return
+    state.restore()
+    n_paths = skipped = 0
+    verdict = None
+    verdict_wit = None
+    for k, (conds, (got, divs)) in enumerate(hruns):
+        if reduce_ is not None:
+            got = reduce_(got)
+        if got is None:
+            continue
+        same = len(got) == len(main_got) and all(a == b for a, b in zip(got, main_got))
+        if same:
+            n_paths += 1
+            continue
+        pts = None
+        if conds:
+            wit = paths.witnesses(conds, allsyms, dom2, consts, ctx.seed + 7 * k, field.DEFAULT_BOX, eps=eps,
+                                  primed={s.name: prev[s].name for s in base})
+            if eps is not None and wit:
+                wit = [w_ for w_ in wit if w_.get(eps.name, 1.0) != 0.0]
+            if not wit:
+                skipped += 1
+                continue
+            pts = [{s: w_[s.name] for s in allsyms} for w_ in wit]
+        n_paths += 1
+        if len(got) != len(want):
+            verdict = ("failed", "second call returns %d cells instead of %d" % (len(got), len(want)), None, conds, k)
+            break
+        for i, (g, w_) in enumerate(zip(got, want)):
+            if g == main_got[i]:
+                continue
+            v = field.check_zero(g - w_, domain=dom2, seed=ctx.seed + i, cos_nonneg=cos_nonneg, extra_relations=extra_relations, points=pts)
+            if v.status == "proved":
+                continue
+            st = "failed" if v.status == "refuted" else "undecided"
+            if verdict is None or (st == "failed" and verdict[0] != "failed"):
+                verdict = (st, "cell %d of the second call: %s" % (i, v.detail), v, conds, k)
+                verdict_wit = pts
+            if st == "failed":
+                break
+        if verdict is not None and verdict[0] == "failed":
+            break
+    dt = time.time() - t0
+    if verdict is None:
+        ctx.ob(name + ".history", "f", True, "symbolic-execution(two calls)+field-nf", dt,
+               "second call after a call on other inputs: %d path(s), result is the single-call result / satisfies the contract%s"
+               % (n_paths, (" (%d path(s) without a witness input skipped)" % skipped) if skipped else ""))
+        return
+    st, detail, v, conds, k = verdict
+    native = None
+    cex = dict(path=k, conditions=paths.show_conds(conds, 6))
+    if st == "failed" and v is not None and v.point is not None:
+        pt = {kk: float(sp.Rational(val)) for kk, val in v.point.items()}
+        # the refuter reports only the coordinates the residual mentions: complete them from the witness they came from,
+        # or (unconditional path) with a second call at the same remaining coordinates
+        full = None
+        for w_ in (verdict_wit or []):
+            wn = {s_.name: val for s_, val in w_.items()}
+            if all(abs(wn[kk] - pt[kk]) <= 1e-12 * (1 + abs(pt[kk])) for kk in pt if kk in wn):
+                full = wn
+                break
+        if full is None:
+            import random as _random
+            rng_ = _random.Random(ctx.seed)
+            full = dict(pt)
+            for s_ in base:
+                lo, hi = dom2.get(s_, field.DEFAULT_BOX)
+                full.setdefault(s_.name, rng_.uniform(float(lo), float(hi)))
+                full.setdefault(s_.name + paths.PRIME, full[s_.name])
+        pt = full
+        cex["point"] = pt
+        try:
+            native = native_fn(pt)
+        except Exception as exc:
+            native = dict(reproduced=None, replay_error=repr(exc))
+        state.restore()
+    ctx.ob(name + ".history", "f", False if st == "failed" else None, "symbolic-execution(two calls)+" + (v.backend if v is not None else "shape"), dt,
+           ("the result of a call depends on an earlier call: " + detail + (" | path: " + "; ".join(paths.show_conds(conds)) if conds else ""))[:900],
+           cex=cex, native=native)
 
 
 def _close(a, b, tol, scale=1.0, atol=0.0):
@@ -237,81 +425,315 @@ def taylor_coeffs(exprs, eps, order):
 def taylor_spec(ctx, name, symbols, eps, code, spec_coeffs, order, domain=None, kind="b",
                 cos_nonneg=(), cell_names=None, py=None, fd_step=1e-4, tol=2e-5, crosscheck=True,
                 orders=None, rdomain_kw=None, extra_relations=(), post=None, derived=None, const_box=None,
-                cc_eps=(-0.5, 0.5), cc_tol=1e-5, cc_atol=0.0):
+                cc_eps=(-0.5, 0.5), cc_tol=1e-5, cc_atol=0.0, history=True):
     """Obligations `name[cell].o<k>`: the k-th Taylor coefficient in `eps` of code(v)
     equals spec_coeffs(v)[cell][k] for k in `orders` (default 0..order).
 
     Native replay of a refuted coefficient: central finite differences of the real
-    function (a measured sensitivity), compared with the spec coefficient."""
+    function (a measured sensitivity), compared with the spec coefficient.  Value-dependent
+    branches are explored path by path; a path is judged only if some input with eps != 0 takes it."""
     py = py or load()
     dom = full_domain(py, domain)
     orders = list(range(order + 1)) if orders is None else orders
-    try:
+    t0 = time.time()
+    state = paths.Captured(code, py)
+    consts = const_point(py)
+    base = list(symbols) + [eps]
+    dome = dict(dom)
+    dome[eps] = cc_eps
+
+    def ncode(v):
+        state.restore()
+        return code(v)
+
+    def body(prev=None):
+        state.restore()
         with rdomain(py, **(rdomain_kw or {})), record_divisors() as divs:
-            sv = {s.name: RSym(s) for s in symbols}
-            sv[eps.name] = RSym(eps)
+            if prev is not None:
+                code({s.name: RSym(prev[s]) for s in base})
+            sv = {s.name: RSym(s) for s in base}
             res = code(sv)
-            got = flat(res)
-    except (TypeError, ValueError, Concretization) as exc:
-        d2 = dict(dom)
-        d2[eps] = cc_eps
-        if not freshness_failure(ctx, name, list(symbols) + [eps], code, d2, exc):
-            raise
-        return None
-    divisor_obligations(ctx, name, [d.subs(eps, 0) for d in divs], dom,
-                        (lambda v: code(dict(v, **{eps.name: 0.0}))), symbols, py, derived=derived,
-                        const_box=const_box)
-    if post is not None:
-        got = post(got)
-    ctx.paths += 1
+            return flat(res), list(divs)
+
     want = spec_coeffs({s.name: s for s in symbols})
-    if len(got) != len(want):
-        ctx.add(Ob(name + ".shape", "c", "failed", "shape", 0.0,
-                   "code returned %d cells, spec has %d" % (len(got), len(want)),
-                   cex=dict(code_cells=len(got), spec_cells=len(want)), native=dict(reproduced=True)))
-        return None
-    coeffs = taylor_coeffs(got, eps, order)
+    n_spec = max(len(r_) for r_ in want) if want else 0
+    fwant = lambdify_at_constants(py, [c_ for row in want for c_ in row], symbols)
 
-    def native_fn(point, i, k):
-        v = {s.name: point.get(s.name, 0.0) for s in symbols}
-
-        def f(e):
-            vv = dict(v)
-            vv[eps.name] = e
-            out = flat_float(code(vv))
-            return out[i]
-        def fd(h):
-            if k == 0:
-                return f(0.0)
-            if k == 1:
-                return (8 * (f(h) - f(-h)) - (f(2 * h) - f(-2 * h))) / (12 * h)
-            if k == 2:
-                return (-f(2 * h) + 16 * f(h) - 30 * f(0.0) + 16 * f(-h) - f(-2 * h)) / (12 * h * h) / 2
-            return (f(2 * h) - 2 * f(h) + 2 * f(-h) - f(-2 * h)) / (2 * h ** 3) / 6
-        g = fd(fd_step)
-        g2 = fd(fd_step * 2)
-        noise = abs(g - g2)                       # finite-difference error estimate (two step sizes)
-        fw = lambdify_at_constants(py, [want[i][k]], symbols)
+    def spec_float(v):
         with mpmath.workdps(30):
-            w = float(fw(*[mpmath.mpf(v[s.name]) for s in symbols])[0])
-        rep = abs(g - w) > 10 * noise + 1e-13 * max(abs(w), abs(g), 1e-3)
-        return dict(reproduced=bool(rep), inputs=v, order=k,
-                    measured_on_real_code=g, contract_demands=w, finite_difference_error_estimate=noise,
-                    method="central finite differences of the real function, steps %g and %g" % (fd_step, 2 * fd_step))
+            flat_w = [float(x) for x in fwant(*[mpmath.mpf(v[s.name]) for s in symbols])]
+        out, k = [], 0
+        for row in want:
+            out.append(flat_w[k:k + len(row)])
+            k += len(row)
+        return out
 
-    for i in range(len(got)):
-        cn = cell_names[i] if cell_names else str(i)
-        for k in orders:
-            v = field.check_zero(coeffs[i][k] - want[i][k], domain=dom, seed=ctx.seed + 31 * i + k,
-                                 cos_nonneg=cos_nonneg, extra_relations=extra_relations)
-            ctx.from_verdict("%s[%s].o%d" % (name, cn, k), kind, v,
-                             (lambda p, _i=i, _k=k: native_fn(p, _i, _k)) if not post else None)
-    if crosscheck and post is None:
-        # cross-check the eps-dependent expression itself at small random eps
-        d2 = dict(dom)
-        d2[eps] = cc_eps
-        cross_check(ctx, name, list(symbols) + [eps], code, got, d2, py=py, tol=cc_tol, atol=cc_atol)
-    return coeffs
+    def model_misfit(v, e, out):
+        """cells where the real output at (v, eps=e) is not c0 + c1 e (+ c2 e^2) up to the next order"""
+        w = spec_float(v)
+        sc = max([abs(r_[0]) for r_ in w] + [1e-300])
+        bad = []
+        for i, row in enumerate(w):
+            known = [k for k in orders if k < len(row)]
+            if 0 not in known or (1 not in known and order >= 1):
+                continue
+            kmax = max(known)
+            pred = sum(row[k] * e ** k for k in range(kmax + 1) if k in known)
+            c1 = abs(row[1]) if len(row) > 1 else 0.0
+            allow = 1e3 * abs(e) ** (kmax + 1) * (sc + c1) + 1e-12 * max(abs(pred), 1e-3 * sc)
+            if abs(out[i] - pred) > allow:
+                bad.append((i, out[i], pred))
+        return bad
+
+    def native_path_fn(point):
+        """replay at a witness of a path: the real output against the Taylor polynomial the contract demands"""
+        v = {s.name: point.get(s.name, 0.0) for s in symbols}
+        e = point.get(eps.name, 0.0)
+        prev = {s.name: point[s.name + paths.PRIME] for s in base if s.name + paths.PRIME in point}
+        state.restore()
+        if prev and len(prev) == len(base):
+            code(prev)
+        out = flat_float(code(dict(v, **{eps.name: e})))
+        state.restore()
+        bad = model_misfit(v, e, out)
+        r_ = dict(reproduced=bool(bad), inputs=dict(v, **{eps.name: e}), cells=[b_[0] for b_ in bad][:6], real_code=[b_[1] for b_ in bad][:6],
+                  contract_demands_up_to_next_order=[b_[2] for b_ in bad][:6])
+        if prev:
+            r_["previous_call_inputs"] = prev
+        return r_
+
+    try:
+        runs = paths.explore_claim(body)
+    except (TypeError, ValueError, Concretization) as exc:
+        state.restore()
+        if freshness_failure(ctx, name, base, code, dome, exc):
+            state.restore()
+            return None
+        found = None
+        if post is None:
+            found = _native_falsify(ctx, base, dome, state, code,
+                                    lambda q: model_misfit({s.name: q[s.name] for s in symbols}, q[eps.name], flat_float(code(q))), eps=eps)
+        state.restore()
+        if found is not None:
+            ctx.add(Ob(name + ".native_fallback", kind, "failed", "bounded native falsification (call sequences; symbolic execution impossible)", time.time() - t0,
+                       "the engine cannot execute this function symbolically (%s); natively the contract fails" % repr(exc)[:160],
+                       cex=found, native=dict(reproduced=True, **found)))
+        raise
+    state.restore()
+    multi = len(runs) > 1
+    main_got = main_coeffs = None
+    for kpath, (conds, (got, divs)) in enumerate(runs):
+        tag = ".path%d" % kpath if multi else ""
+        pts = wit = None
+        if conds:
+            wit = paths.witnesses(conds, base, dome, consts, ctx.seed + kpath, field.DEFAULT_BOX, eps=eps)
+            wit = [w_ for w_ in (wit or []) if w_.get(eps.name, 0.0) != 0.0]
+            if not wit:
+                ctx.notes.append(dict(claim=name, path=kpath, skipped="no input with eps != 0 found on which the recorded branch outcomes reproduce natively",
+                                      conditions=paths.show_conds(conds)))
+                continue
+            pts = [{s_: w_[s_.name] for s_ in symbols} for w_ in wit]
+        else:
+            divisor_obligations(ctx, name + tag, [d.subs(eps, 0) for d in divs], dom,
+                                (lambda v: ncode(dict(v, **{eps.name: 0.0}))), symbols, py, derived=derived,
+                                const_box=const_box)
+        if post is not None:
+            got = post(got)
+        if len(got) != len(want):
+            ctx.add(Ob(name + tag + ".shape", "c", "failed", "shape", 0.0,
+                       "code returned %d cells, spec has %d" % (len(got), len(want)),
+                       cex=dict(code_cells=len(got), spec_cells=len(want)), native=dict(reproduced=True)))
+            continue
+        ctx.paths += 1
+        coeffs = taylor_coeffs(got, eps, order)
+        if main_got is None:
+            main_got, main_coeffs = got, coeffs
+
+        def native_fn(point, i, k):
+            v = {s.name: point.get(s.name, 0.0) for s in symbols}
+
+            def f(e):
+                vv = dict(v)
+                vv[eps.name] = e
+                out = flat_float(ncode(vv))
+                return out[i]
+
+            def fd(h):
+                if k == 0:
+                    return f(0.0)
+                if k == 1:
+                    return (8 * (f(h) - f(-h)) - (f(2 * h) - f(-2 * h))) / (12 * h)
+                if k == 2:
+                    return (-f(2 * h) + 16 * f(h) - 30 * f(0.0) + 16 * f(-h) - f(-2 * h)) / (12 * h * h) / 2
+                return (f(2 * h) - 2 * f(h) + 2 * f(-h) - f(-2 * h)) / (2 * h ** 3) / 6
+            g = fd(fd_step)
+            g2 = fd(fd_step * 2)
+            noise = abs(g - g2)                       # finite-difference error estimate (two step sizes)
+            fw = lambdify_at_constants(py, [want[i][k]], symbols)
+            with mpmath.workdps(30):
+                w = float(fw(*[mpmath.mpf(v[s.name]) for s in symbols])[0])
+            rep = abs(g - w) > 10 * noise + 1e-13 * max(abs(w), abs(g), 1e-3)
+            return dict(reproduced=bool(rep), inputs=v, order=k,
+                        measured_on_real_code=g, contract_demands=w, finite_difference_error_estimate=noise,
+                        method="central finite differences of the real function, steps %g and %g" % (fd_step, 2 * fd_step))
+
+        for i in range(len(got)):
+            cn = cell_names[i] if cell_names else str(i)
+            for k in orders:
+                v = field.check_zero(coeffs[i][k] - want[i][k], domain=dom, seed=ctx.seed + 31 * i + k,
+                                     cos_nonneg=cos_nonneg, extra_relations=extra_relations, points=pts)
+                if conds and v.status != "proved":
+                    v.detail = (v.detail + " | on the path " + "; ".join(paths.show_conds(conds)))[:900]
+                if conds:
+                    nf = (lambda p, _w=wit[0]: native_path_fn(_w)) if not post else None
+                else:
+                    nf = (lambda p, _i=i, _k=k: native_fn(p, _i, _k)) if not post else None
+                ctx.from_verdict("%s[%s].o%d%s" % (name, cn, k, tag), kind, v, nf)
+        if crosscheck and post is None and not conds:
+            # cross-check the eps-dependent expression itself at small random eps
+            cross_check(ctx, name, base, ncode, got, dome, py=py, tol=cc_tol, atol=cc_atol)
+    if main_got is None:
+        ctx.add(Ob(name + ".paths", "guard", "error", "path-enumeration", time.time() - t0, "no executable path of the claim had a witness input"))
+        return None
+    if history:
+        def reduce_(got):
+            if post is not None:
+                got = post(got)
+            return got
+        _history_taylor(ctx, name, symbols, eps, body, state, want, main_got, main_coeffs, order, orders, dom, dome, consts, kind,
+                        cos_nonneg, extra_relations, native_path_fn if post is None else None, reduce_)
+    state.restore()
+    return main_coeffs
+
+
+def _history_taylor(ctx, name, symbols, eps, body, state, want, main_got, main_coeffs, order, orders, dom, dome, consts, kind,
+                    cos_nonneg, extra_relations, native_fn, reduce_):
+    """`name.history` for a Taylor claim: the coefficients of the second of two calls still equal the spec coefficients"""
+    t0 = time.time()
+    base = list(symbols) + [eps]
+    prev = paths.primed_symbols(base)
+    allsyms = base + [prev[s] for s in base]
+    dom2 = dict(dome)
+    for s in base:
+        if s in dome:
+            dom2[prev[s]] = dome[s]
+    try:
+        hruns = paths.explore_claim(lambda: body(prev))
+    except Exception as exc:
+        state.restore()
+        ctx.ob(name + ".history", "f", None, "symbolic-execution(two calls)", time.time() - t0,
+               "the second of two calls could not be executed symbolically (%s): the function keeps state the engine cannot follow" % repr(exc)[:200])
+        return
+    state.restore()
+    n_paths = skipped = 0
+    verdict = None
+    for kpath, (conds, (got, divs)) in enumerate(hruns):
+        got = reduce_(got)
+        same = len(got) == len(main_got) and all(a == b for a, b in zip(got, main_got))
+        if same:
+            n_paths += 1
+            continue
+        pts = wit = None
+        if conds:
+            wit = paths.witnesses(conds, allsyms, dom2, consts, ctx.seed + 7 * kpath, field.DEFAULT_BOX, eps=eps,
+                                  primed={s.name: prev[s].name for s in base})
+            wit = [w_ for w_ in (wit or []) if w_.get(eps.name, 0.0) != 0.0]
+            if not wit:
+                skipped += 1
+                continue
+            pts = [{s_: w_[s_.name] for s_ in allsyms if s_ is not eps} for w_ in wit]
+        n_paths += 1
+        if len(got) != len(want):
+            verdict = ("failed", "second call returns %d cells instead of %d" % (len(got), len(want)), None, conds, kpath, None)
+            break
+        coeffs = taylor_coeffs(got, eps, order)
+        for i in range(len(got)):
+            if got[i] == main_got[i]:
+                continue
+            for k in orders:
+                v = field.check_zero(coeffs[i][k] - want[i][k], domain=dom2, seed=ctx.seed + 31 * i + k, cos_nonneg=cos_nonneg,
+                                     extra_relations=extra_relations, points=pts)
+                if v.status == "proved":
+                    continue
+                st = "failed" if v.status == "refuted" else "undecided"
+                if verdict is None or (st == "failed" and verdict[0] != "failed"):
+                    verdict = (st, "cell %d, order %d of the second call: %s" % (i, k, v.detail), v, conds, kpath, wit[0] if wit else None)
+                if st == "failed":
+                    break
+            if verdict is not None and verdict[0] == "failed":
+                break
+        if verdict is not None and verdict[0] == "failed":
+            break
+    dt = time.time() - t0
+    if verdict is None:
+        ctx.ob(name + ".history", "f", True, "symbolic-execution(two calls)+field-nf", dt,
+               "second call after a call on other inputs: %d path(s), Taylor coefficients are those of the single call / of the spec%s"
+               % (n_paths, (" (%d path(s) without a witness input skipped)" % skipped) if skipped else ""))
+        return
+    st, detail, v, conds, kpath, w0 = verdict
+    native = None
+    cex = dict(path=kpath, conditions=paths.show_conds(conds, 6))
+    if st == "failed" and native_fn is not None:
+        pt = w0
+        if pt is None and v is not None and v.point is not None:
+            pt = {kk: float(sp.Rational(val)) for kk, val in v.point.items()}
+            pt.setdefault(eps.name, 1e-6)
+            pt.setdefault(eps.name + paths.PRIME, 1e-6)
+        if pt is not None:
+            cex["point"] = pt
+            try:
+                native = native_fn(pt)
+            except Exception as exc:
+                native = dict(reproduced=None, replay_error=repr(exc))
+            state.restore()
+    ctx.ob(name + ".history", "f", False if st == "failed" else None, "symbolic-execution(two calls)+" + (v.backend if v is not None else "shape"), dt,
+           ("the result of a call depends on an earlier call: " + detail + (" | path: " + "; ".join(paths.show_conds(conds)) if conds else ""))[:900],
+           cex=cex, native=native)
+
+
+@guarded_claim
+def history_independent(ctx, name, symbols, code, domain=None, kind="f", cos_nonneg=(), py=None, rdomain_kw=None,
+                        extra_relations=(), tol=1e-9):
+    """Obligation `name.history` without a spec: the result of code(v) after a call on other inputs (same captured
+    objects, same module state) is the result of a single call, on every witnessed path of the two-call sequence.
+    Use where the functional contract is checked by other means but the function belongs to a stateful object."""
+    py = py or load()
+    dom = full_domain(py, domain)
+    state = paths.Captured(code, py)
+    consts = const_point(py)
+
+    def body(prev=None):
+        state.restore()
+        with rdomain(py, **(rdomain_kw or {})):
+            if prev is not None:
+                code({s.name: RSym(prev[s]) for s in symbols})
+            return flat(code({s.name: RSym(s) for s in symbols})), []
+
+    runs = paths.explore_claim(body)
+    state.restore()
+    single = [r_ for r_ in runs if not r_[0]]
+    if not single:
+        ctx.ob(name + ".history", kind, None, "symbolic-execution(two calls)", 0.0, "the single call itself branches on its input; use eq_spec / taylor_spec")
+        return None
+    main_got = single[0][1][0]
+
+    def native_fn(point):
+        v = {s.name: point.get(s.name, 0.0) for s in symbols}
+        prev = {s.name: point.get(s.name + paths.PRIME, v[s.name]) for s in symbols}
+        state.restore()
+        alone = flat_float(code(v))
+        state.restore()
+        code(prev)
+        after = flat_float(code(v))
+        state.restore()
+        sc = max([abs(x) for x in alone] + [1e-300])
+        bad = [(i, after[i], alone[i]) for i in range(min(len(alone), len(after))) if not _close(after[i], alone[i], tol, sc)]
+        return dict(reproduced=bool(bad) or len(alone) != len(after), inputs=v, previous_call_inputs=prev, cells=[b_[0] for b_ in bad][:6],
+                    after_an_earlier_call=[b_[1] for b_ in bad][:6], single_call=[b_[2] for b_ in bad][:6])
+
+    _history(ctx, name, symbols, None, body, state, main_got, main_got, dom, consts, kind, cos_nonneg, extra_relations, native_fn)
+    state.restore()
+    return main_got
 
 
 # ---------------------------------------------------------------------------
